@@ -290,7 +290,7 @@ def hdr_unit(name, response, nq, nt, extra, bound, unwind, timeout=(600, 3000), 
     d = {'N': nq, 'C02_IS_RESPONSE': 1 if response else 0,
          'C02_PARSE': 'htp_parse_response_header_generic' if response else 'htp_parse_request_header_generic'}
     if response:
-        d['KNOWN_F_C02_RESP_HDR_LEN0'] = 1
+        pass   # KNOWN_F_C02_RESP_HDR_LEN0 removed: fixed in /repo (c4f6214); empty lines are now part of the domain
     d.update(extra)
     UNITS.append(U(
         name=name, props=['C02'], kind='bounded', src=['htp_response_generic.c' if response else 'htp_request_generic.c'], link=['bstr.c', 'htp_util.c', 'htp_parsers.c'],
@@ -554,7 +554,7 @@ cu('htp_parse_response_header_generic', 'htp_response_generic.c',
    'OK iff no allocation failed, then the header owns both copies; on ERROR every copy is released exactly once; flags only grow; frame = the header and the transaction flags',
    props=('C02', 'C01', 'C18'), link=['htp_util.c'],
    replace=['htp_chomp/contract_c02_chomp_site', 'htp_log/contract_c02_htp_log', 'bstr_dup_mem/contract_c02_dup_mem', 'bstr_free/contract_c02_bstr_free'],
-   defs={'quick': {'VCAP': 64, 'C02_CONTRACTS': 1, 'KNOWN_F_C02_RESP_HDR_LEN0': 1}, 'thorough': {'VCAP': 256}}, min_obl=100, timeout=(300, 1500),
+   defs={'quick': {'VCAP': 64, 'C02_CONTRACTS': 1}, 'thorough': {'VCAP': 256}}, min_obl=100, timeout=(300, 1500),
    assumes=['input: heap object of constant size VCAP, symbolic line length <= VCAP, only read',
             'htp_chomp replaced by its contract (unit htp_chomp); htp_log replaced by a no-op contract; bstr_dup_mem replaced by the provenance-logging stub contract_c02_dup_mem '
             '(precondition "source range lies inside the input line" asserted at every call; that the copy is byte-identical is C17 + the bounded units); bstr_free by an ownership-logging stub',
